@@ -107,4 +107,56 @@ theorem dimsLe_arrayShape : ∀ vs ws : List Nat, dimsLe (arrayShape vs) (arrayS
     simp only [arrayShape, List.map_cons, dimsLe, natLe, ih]
     by_cases h1 : v = w <;> by_cases h2 : vs = ws <;> simp [h1, h2] <;> omega
 
+/-! the oracle's refinement on dims is a partial order; bookkeeping of `runFlow` -/
+
+theorem dimLe_trans (x y z : Dim) (h1 : dimLe x y = true) (h2 : dimLe y z = true) : dimLe x z = true := by
+  simp only [dimLe, Bool.or_eq_true, beq_iff_eq] at *
+  rcases h2 with h2 | h2
+  · exact Or.inl h2
+  · subst h2; exact h1
+
+theorem dimLe_antisymm (x y : Dim) (h1 : dimLe x y = true) (h2 : dimLe y x = true) : x = y := by
+  simp only [dimLe, Bool.or_eq_true, beq_iff_eq] at *
+  rcases h1 with h1 | h1 <;> rcases h2 with h2 | h2 <;> simp_all
+
+theorem zipAll_trans : ∀ xs ys zs : List Dim, xs.length = ys.length → ys.length = zs.length →
+    (List.zip xs ys).all (fun p => dimLe p.1 p.2) = true →
+    (List.zip ys zs).all (fun p => dimLe p.1 p.2) = true →
+    (List.zip xs zs).all (fun p => dimLe p.1 p.2) = true
+  | [], _, _, _, _, _, _ => by simp
+  | _ :: _, [], _, h, _, _, _ => by simp at h
+  | _ :: _, _ :: _, [], _, h, _, _ => by simp at h
+  | x :: xs, y :: ys, z :: zs, h1, h2, a, b => by
+    simp only [List.zip_cons_cons, List.all_cons, Bool.and_eq_true] at a b ⊢
+    simp only [List.length_cons, Nat.add_right_cancel_iff] at h1 h2
+    exact ⟨dimLe_trans x y z a.1 b.1, zipAll_trans xs ys zs h1 h2 a.2 b.2⟩
+
+theorem zipAll_antisymm : ∀ xs ys : List Dim, xs.length = ys.length →
+    (List.zip xs ys).all (fun p => dimLe p.1 p.2) = true →
+    (List.zip ys xs).all (fun p => dimLe p.1 p.2) = true → xs = ys
+  | [], [], _, _, _ => rfl
+  | [], _ :: _, h, _, _ => by simp at h
+  | _ :: _, [], h, _, _ => by simp at h
+  | x :: xs, y :: ys, h, a, b => by
+    simp only [List.zip_cons_cons, List.all_cons, Bool.and_eq_true] at a b
+    simp only [List.length_cons, Nat.add_right_cancel_iff] at h
+    rw [dimLe_antisymm x y a.1 b.1, zipAll_antisymm xs ys h a.2 b.2]
+
+theorem runFlow_append (Infer : InferFn) : ∀ (pre post : List Step) (st : Env × Nat),
+    runFlow Infer st (pre ++ post) =
+      ((runFlow Infer (runFlow Infer st pre).1 post).1,
+       (runFlow Infer st pre).2 ++ (runFlow Infer (runFlow Infer st pre).1 post).2)
+  | [], post, st => by simp [runFlow]
+  | s :: ss, post, st => by
+    simp only [List.cons_append, runFlow]
+    rw [runFlow_append Infer ss post]
+
+theorem stepEnv_result (Infer : InferFn) (st : Env × Nat) (s : Step) :
+    (stepEnv Infer st s).2 = construct Infer (s.call st.1) := rfl
+
+theorem runFlow_length (Infer : InferFn) : ∀ (steps : List Step) (st : Env × Nat),
+    (runFlow Infer st steps).2.length = steps.length
+  | [], _ => rfl
+  | s :: ss, st => by simp [runFlow, runFlow_length Infer ss]
+
 end Sing
